@@ -263,6 +263,36 @@ def run(ctx):
         R.ob("C22-R3", ok, po.q, "rule:%s" % what, "%s:%d" % (po.relfile, po.d["line"]),
              "rejected with an error under `%s%s`" % ("" if fact[1] else "!", fact[0]) if ok else
              "no error is reported under `%s%s`: the shared validator accepts %s, and only some back ends catch it later on their own" % ("" if fact[1] else "!", fact[0], what))
+    # the loop-header rule about the comparison: exactly < <= > >= are accepted (group constants such as operatorType::comparison are expanded
+    # through the operator-type table)
+    def flag_leaves(e, depth=0):
+        out = set()
+        for x in walk(e):
+            if x["k"] == "DeclRefExpr" and x.get("n", "").startswith(NS.replace("okl::", "") + "operatorType::"):
+                g = prog.globals.get(x["n"])
+                init = g.get("init") if g else None
+                sub = {y.get("n") for y in walk(init) if y["k"] == "DeclRefExpr" and y.get("n", "").startswith(NS.replace("okl::", "") + "operatorType::")} if init is not None else set()
+                if sub and depth < 4:
+                    for y in walk(init):
+                        if y["k"] == "DeclRefExpr" and y.get("n", "").startswith(NS.replace("okl::", "") + "operatorType::"):
+                            out |= flag_leaves(y, depth + 1)
+                else:
+                    out.add(x["n"].split("::")[-1])
+        return out
+    hvc = prog.fn(NS + "oklForStatement::hasValidCheck")
+    hcfg = hvc.cfg
+    HIN = hcfg.facts_in()
+    rejs = [c for c in hvc.walk() if is_call(c) and callee(c).endswith("::printError") and any("operators" in (literal(x) or "") for x in walk(c) if x["k"] == "StringLiteral")]
+    accepted = None
+    for c in rejs:
+        for (k, pol) in hcfg.facts_at(c, HIN):
+            fn_ = hcfg.fact_node((k, pol)) if (k, pol) in hcfg._factnode else None
+            if fn_ is not None and not pol and "operatorType::" in noid(k) and "&" in noid(k):
+                accepted = flag_leaves(fn_)
+    WANT_OPS = {"lessThan", "lessThanEq", "greaterThan", "greaterThanEq"}
+    R.ob("C22-R3", accepted == WANT_OPS, hvc.q, "loop check operator: exactly < <= > >= accepted", "%s:%d" % (hvc.relfile, hvc.d["line"]),
+         "every other comparison is rejected for all back ends" if accepted == WANT_OPS else
+         "the accepted operators are %s: a loop such as `i != n` / `i == n` passes the shared validator, and the launch size is still computed as bound - init" % (sorted(accepted) if accepted else "not determined"))
     # loop header rule is wired: kernelHasValidOklLoops -> oklForStatement::isValid -> ctor computes hasValidInit && hasValidCheck && hasValidUpdate
     khl = prog.fn(NS + "kernelHasValidOklLoops")
     iv = [c for c in khl.walk() if is_call(c) and callee(c) == NS + "oklForStatement::isValid"]
